@@ -6,7 +6,7 @@ import numpy as np
 from . import gen_circuit as G
 from . import wave as W
 
-FEATS = ['unconn_in', 'unconn_out', 'ff_no_d', 'out_read', 'wiring', 'consts', 'floating']
+FEATS = ['unconn_in', 'unconn_out', 'ff_no_d', 'out_read', 'wiring', 'consts', 'floating', 'ff_unread']
 
 
 def gen_case(rng, max_gates=30, xor_rich=None, caps=None, feats=None, sims=None, multi=None):
